@@ -973,10 +973,33 @@ class Node(object):
         """
         if type(node) == str:
             node = self.ownerDocument.createTextNode(node)
+
+        # Replace a slice by a node, the children of a DocumentFragment
+        # or a sequence of nodes
+        if isinstance(i, slice):
+            start, stop, step = i.indices(len(self))
+            if step != 1:
+                raise ValueError('extended slices are not supported')
+            for dummy in range(max(0, stop - start)):
+                self.pop(start)
+            if isinstance(node, (list, tuple)) or \
+               node.nodeType == Node.DOCUMENT_FRAGMENT_NODE:
+                items = list(node)
+            else:
+                items = [node]
+            for item in items:
+                self.insert(start, item)
+                start += 1
+            return
+
+        if i < 0:
+            i += len(self)
+        if i < 0 or i >= len(self):
+            raise IndexError('object index out of range')
+
         # If a DocumentFragment is being inserted, but it isn't replacing
         # a slice, we need to put each child in manually.
-        if node.nodeType == Node.DOCUMENT_FRAGMENT_NODE \
-           and not(isinstance(i, slice)):
+        if node.nodeType == Node.DOCUMENT_FRAGMENT_NODE:
             for item in node:
                 self.insert(i, item)
                 i += 1
